@@ -226,6 +226,28 @@ def drive_faceq_near(doms, rng, dtype_name):
     return r
 
 
+def drive_faceq_views(d, rng):
+    """two factors over (d, d) whose weights are VIEWS OF ONE TENSOR laid out differently (w and w.t(), a patterned tensor
+    and its transpose, a tensor and a clone): equality is by the dense weights, not by where they are stored"""
+    import torch
+    from fggs.factors import FiniteFactor
+    from fggs.indices import PatternedTensor
+    n = len(d['vals'])
+    w = torch.tensor([[float(rng.choice([1, 2, 3, 5])) for _ in range(n)] for _ in range(n)], dtype=torch.get_default_dtype())
+    how = rng.choice(['t', 'pt_T', 'clone', 'same'])
+    w2 = {'t': lambda: w.t(), 'pt_T': lambda: PatternedTensor(w).T, 'clone': lambda: w.clone(), 'same': lambda: w}[how]()
+    dense2 = (w2.to_dense() if isinstance(w2, PatternedTensor) else w2)
+    r = {'k': 'faceq', 'f1': {'doms': [d, d], 'w': [snap_int(float(x)) for x in w.reshape(-1).tolist()]},
+         'f2': {'doms': [d, d], 'w': [snap_int(float(x)) for x in dense2.reshape(-1).tolist()]}, 'eq': False, 'out': 'ok', 'tag': ['faceq', 'views', how]}
+    try:
+        f1 = FiniteFactor([mkdom(d), mkdom(d)], w)
+        f2 = FiniteFactor([mkdom(d, 'tuple'), mkdom(d, 'tuple')], w2)
+        r['eq'] = bool(f1 == f2) and not bool(f1 != f2)
+    except Exception as e:  # noqa
+        r['out'] = 'raise:' + type(e).__name__
+    return r
+
+
 def drive_faceq(doms1, base1, doms2, base2, form1, form2):
     from fggs.factors import FiniteFactor
     sh1, sh2 = [len(d['vals']) for d in doms1], [len(d['vals']) for d in doms2]
@@ -318,6 +340,9 @@ def run(tier, seed):
                     cases.extend(drive_apply_hist(ds, form, how))
         for j in range(150 if tier == 'quick' else 1500):
             cases.append(drive_faceq_near(rng.choice(nonempty + [[]]), rng, 'float32' if j % 2 else 'float64'))
+        sq = [d for d in small if len(d['vals']) >= 2]
+        for j in range(80 if tier == 'quick' else 800):
+            cases.append(drive_faceq_views(rng.choice(sq), rng))
         verdicts, st, tr, _ = judge_batch(work / 'judge', 'Trace_Domains', cases, per_shard_min=500)
         o.states += st
         o.transitions += tr
